@@ -20,7 +20,8 @@ jiff = { path = "../..", features = ["static", "tzdb-bundle-always"] }
 EOT
 cp "$WT/Cargo.lock" "$DC/" 2>/dev/null
 cp "$V/demo.rs" "$DC/src/main.rs"
-run_demo() { (cd "$DC" && cargo run --offline --release -q >"$DC/out.$1" 2>&1; echo $?); }
+# DEMO_RUSTFLAGS: flags for building the demo only (e.g. --cfg jiff_verif when the demo needs the virtual clock)
+run_demo() { (cd "$DC" && RUSTFLAGS="${DEMO_RUSTFLAGS:-}" cargo run --offline --release -q >"$DC/out.$1" 2>&1; echo $?); }
 base=$(run_demo base)
 git apply "$V/patch.diff" || { echo "RESULT apply-failed"; exit 2; }
 withp=$(run_demo patched)
